@@ -188,7 +188,7 @@ ESC_TB = [
     KERNEL,
     "the theorem statements in lean/ScrutModel/Props being a faithful reading of the property",
     CORR,
-    "hand-written models lean/ScrutModel/Model/Escaping.lean (src/escaping.rs: has_unprintable_*, byte_to_ascii, escaped_printable_*, escaped_expectation_*), EscapedFilter.lean (src/rules/escaped_filter.rs: unescape_tabs, resolve_escape_sequences_to_bytes incl. from_str_radix's leading '+'), RulesStr.lean (EqualRule, EqualNoEolRule, EscapedRule incl. the ` (no-eol)` stripping, trim_newlines/assure_newline), Utf8.lean (String::from_utf8 as a total decoder), tied to the code by behavioural correspondence only",
+    "hand-written models lean/ScrutModel/Model/Escaping.lean (src/escaping.rs: has_unprintable_*, byte_to_ascii, escaped_printable_*, guard_tailing_no_eol, escaped_expectation_*), EscapedFilter.lean (src/rules/escaped_filter.rs: unescape_tabs, resolve_escape_sequences_to_bytes incl. from_str_radix's leading '+'), RulesStr.lean (EqualRule, EqualNoEolRule, EscapedRule incl. the ` (no-eol)` stripping, trim_newlines/assure_newline), Utf8.lean (String::from_utf8 as a total decoder), tied to the code by behavioural correspondence only",
     "char::is_other() (crate unicode_categories) is a parameter of the model; unicode-mode theorems assume AsciiContract (on ASCII: exactly 0x00..0x1f and 0x7f); the harness passes the real classification of every input character with each case and evaluates the printable oracle with the real is_other",
     "String::from_utf8_lossy enters only through `encoded == escaped`: modelled as `decoded text == escaped` for valid UTF-8 and `false` for invalid UTF-8 (the lossy text then contains U+FFFD, the byte-wise rendering is pure ASCII); checked by the correspondence on every case",
     "reading back goes through the public ExpectationMaker::parse of `<text> (escaped)` / `<text> (equal)`; that parse hands the text before the final ` (kind)` to the rule constructor is the subject of C08, exercised here on every case",
@@ -197,7 +197,7 @@ ESC_TB = [
 ESC_RULE = (
     "cases = (mode, line bytes) through the real Escaper::{has_unprintable, escaped_printable, escaped_expectation}, the written text parsed back through ExpectationMaker::parse and matched: "
     "exhaustive over all strings of 0-2 bytes x both modes, all 3-symbol strings over a 24-symbol alphabet around the backslash x both modes, Unicode scalars alone / after a backslash / next to a control character in unicode mode "
-    "(quick: all below U+3000, the surrogate and plane boundaries and every 101st; thorough: every scalar), seeded random bytes and random valid UTF-8 with 0-2 trailing line feeds; "
+    "(quick: all below U+3000, the surrogate and plane boundaries and every 101st; thorough: every scalar), seeded random bytes and random valid UTF-8 with 0-2 trailing line feeds, every prefix of 0-2 symbols x 10 tails around ` (no-eol)` x both modes; "
     "the decoder alone on every expression of up to 4 symbols over 16 (incl. malformed ones: ok/err class must agree) and random longer ones; the model's UTF-8 decoder against String::from_utf8 on all strings of 0-2 bytes, "
     "3- and 4-byte strings over boundary bytes (thorough: all 3-byte strings) and damaged random text. Direct oracle on the real code: printable by the real is_other, matches(line+LF), escaped also matches(line), no match for ~50 single-byte edits of the content. "
     "non-trivial = the line contains a byte outside 0x20..0x7e or a backslash (esc), the expression contains a backslash (unesc), a byte >= 0x80 (utf8); distinct = distinct model op line"
@@ -322,9 +322,9 @@ MANIFEST_TEXT = {
         "technique": "Lean 4 theorems (decision procedure = inductive specification) on executable models of wildmatch / glob-to-regex / regex wrap + exhaustive differential correspondence + regex-crate whole-line oracle",
     },
     "C11": {
-        "text": "Machine-checked (Lean 4, all byte strings without line feed, both modes): the text written for a line is printable - ascii mode: every character in 0x20..0x7e (C11_ascii_printable); unicode mode: no is_other character, under the contract that is_other on ASCII is exactly the control characters (C11_unicode_printable) - and lossless: read back as the kind it is written as (unmarked -> EqualRule, ` (escaped)` -> EscapedRule::make + matches) it matches the line with its line feed (escaped: also without) and every line it matches has exactly that content (C11_lossless_partial). Key lemmas: every piece the escaper writes is a token that the two decoder passes (unescape_tabs, resolve_escape_sequences_to_bytes) read as the bytes it was written for, tokens compose (Tok.*), and the UTF-8 decoder is sound (utf8Decode_sound). PARTIAL: guarded by `the escaped text does not end in \" (no-eol)\"` - EscapedRule::make strips that suffix, so content such as `x<0x01> (no-eol)` does not read back (C11_lossless_fails_on_witness; oracle class C11:no-eol-suffix-stripped, reported as known finding). Tie to code: exhaustive 0-2 byte strings and 3-symbol strings around the backslash in both modes, Unicode scalars (thorough: all 1.1 M) alone/after a backslash/next to a control character, random bytes and text, the decoder alone on all expressions up to 4 symbols, the UTF-8 decoder against String::from_utf8.",
+        "text": "Machine-checked (Lean 4, all byte strings without line feed, both modes, no guard): the text written for a line is printable - ascii mode: every character in 0x20..0x7e (C11_ascii_printable); unicode mode: no is_other character, under the contract that is_other on ASCII is exactly the control characters (C11_unicode_printable) - and lossless: read back as the kind it is written as (unmarked -> EqualRule, ` (escaped)` -> EscapedRule::make + matches) it matches the line with its line feed (escaped: also without) and every line it matches has exactly that content (C11_lossless, full strength). Key lemmas: every piece the escaper writes is a token that the two decoder passes (unescape_tabs, resolve_escape_sequences_to_bytes) read as the bytes it was written for, tokens compose (Tok.*); the rendering is a sequence of pieces in which a blank is its own piece, so guard_tailing_no_eol's rewrite of a tailing ` (no-eol)` to `\\x20(no-eol)` keeps the bytes (Rep.replace_space, Rep.guard) and the guarded text never ends in ` (no-eol)`, so EscapedRule::make strips nothing (C11_no_eol_guarded); the UTF-8 decoder is sound and complete. The witness of the former finding is a positive regression theorem (C11_regression_no_eol); C11_unguarded_text_would_fail records why the guard is needed. Tie to code: exhaustive 0-2 byte strings and 3-symbol strings around the backslash in both modes, every 0-2 symbol prefix x 10 tails around ` (no-eol)`, Unicode scalars (thorough: all 1.1 M) alone/after a backslash/next to a control character, random bytes and text, the decoder alone on all expressions up to 4 symbols, the UTF-8 decoder against String::from_utf8.",
         "design_ref": "DESIGN.md §6 C11",
-        "note": "Trusted: kernel + 3 axioms, harness, statement reading. is_other is a parameter (AsciiContract assumed, real classification passed per case); from_utf8_lossy only via the equality test (see trusted_base). Defect repaired earlier by fix: b3e4df7 (unicode mode never doubled backslashes). Open finding: ` (no-eol)` suffix stripped by EscapedRule::make.",
+        "note": "Trusted: kernel + 3 axioms, harness, statement reading. is_other is a parameter (AsciiContract assumed, real classification passed per case); from_utf8_lossy only via the equality test (see trusted_base). Defects repaired by fix: b3e4df7 (unicode mode never doubled backslashes) and c1bf05c (a tailing ` (no-eol)` of the escaped text was stripped by EscapedRule::make; oracle class C11:no-eol-suffix-stripped stays as regression class).",
         "technique": "Lean 4 inverse-function proof (token-wise, two decoder passes) on executable model + exhaustive/differential correspondence + read-back oracle on the real code",
     },
     "C07": {
@@ -420,7 +420,7 @@ MANIFEST_TEXT = {
 }
 
 # properties whose machinery is merged but being brought up to date with fix commits: not claimed yet
-PENDING = {"C09", "C11"}
+PENDING = {"C09"}
 
 WIP = "not yet claimed: model, theorems and correspondence for this property are still being built (see DESIGN.md §11); nothing is asserted about it"
 NOT_APPLICABLE = [{"property_id": "C%02d" % i, "reason": WIP} for i in range(1, 21) if "C%02d" % i not in PROPS or "C%02d" % i in PENDING]
